@@ -583,6 +583,34 @@ def gen_inf(rng, variant=None):
     n = int(rng.integers(1, 5))
     Q = _spd(rng, n, 10.0)
     q = rng.normal(size=n)
+    if variant == 6:
+        # (only on request) k parallel rows a.x = b_i whose right-hand sides miss each other by a little less than
+        # twice the default tolerance: solvable to tolerance (all rows violated by comparable amounts just below it),
+        # and every point of the compromise manifold is stationary for the violation measure
+        if n < 2:
+            n = 2
+            Q = _spd(rng, n, 10.0)
+            q = rng.normal(size=n)
+        k = int(rng.integers(2, 4))
+        a = rng.normal(size=n)
+        a = a / np.linalg.norm(a) * rng.uniform(0.7, 1.5)
+        gap = 2e-6 * float(rng.uniform(0.72, 0.97))
+        b0 = float(rng.normal())
+        bs = b0 + gap * np.linspace(0.0, 1.0, k)
+        if k == 3:
+            bs[1] = b0 + gap * float(rng.choice([0.0, 1.0]))   # two rows on one side
+        A = np.tile(a, (k, 1))
+        lb = np.full(n, -INF)
+        ub = np.full(n, INF)
+        spec = Spec(Q, q, A, np.zeros(k), lb, ub, bs, bs, meta={"family": "INF", "variant": "marginal-parallel-rows"})
+        spec.x0 = rng.normal(size=n)
+        # the minimiser lies far away along the compromise manifold: the rows settle long before optimality is reached
+        d = rng.normal(size=n)
+        d = d - a * (a @ d) / (a @ a)
+        if np.linalg.norm(d) > 1e-6:
+            xm = spec.x0 + d / np.linalg.norm(d) * float(rng.uniform(30.0, 100.0))
+            spec.q = -spec.Q @ xm
+        return spec
     if variant == 5:
         # row unreachable inside a box whose bounds have a large magnitude; the start lies very close to (but not
         # on) the corner that minimises the violation
@@ -651,6 +679,14 @@ def gen_unb(rng, variant=None):
     """Problems unbounded below along a feasible ray."""
     variant = variant if variant is not None else int(rng.integers(0, 5))
     n = int(rng.integers(1, 5))
+    if variant == 5:
+        # (only on request) linear programme with a small cost and no constraints: every implicit Euler step is solved by
+        # the first Newton iteration, so that the inverse step size shrinks in every one of a long run of iterations
+        c = -float(10.0 ** rng.uniform(-4, -2)) * np.ones(n)
+        spec = Spec(np.zeros((n, n)), c, np.zeros((0, n)), [], np.zeros(n), np.full(n, INF), [], [],
+                    meta={"family": "UNB", "variant": "small-cost-lp"})
+        spec.x0 = np.ones(n)
+        return spec
     if variant == 4:
         # minimise x_0 on the slightly curved feasible set x_1 + b/2 x_0^2 = r: unbounded below, but long
         # steps leave a linearisation error in the row, so the objective can pass the lower limit at a
@@ -887,7 +923,8 @@ def gen_file(rng, path=None):
                 sp_a=None if d.get("sp_a") is None else np.array(d["sp_a"], dtype=float),
                 sp_W=None if d.get("sp_W") is None else np.array(d["sp_W"], dtype=float).reshape(-1, n), B=B,
                 x0=np.array(d["x0"], dtype=float), y0=None if d.get("y0") is None else np.array(d["y0"], dtype=float),
-                meta={"family": d.get("family", "QP-dense"), "xs": np.array(d.get("xs", d["x0"]), dtype=float),
+                meta={"family": d.get("family", "QP-dense"),
+                      "xs": np.array(d["xs"] if d.get("xs") is not None else d["x0"], dtype=float),
                       "witness": path})
     return spec
 
